@@ -854,6 +854,13 @@ pub fn finish(agg: &Agg, wall_s: f64, rule: &str, assumptions: Vec<String>) -> i
         agg.violations.len(),
         agg.truncated
     );
+    if !agg.truncated.is_empty() {
+        println!(
+            "note: {} run(s) were cut short by failed expectations of other properties {:?}; those properties' own checks report them",
+            agg.truncated.values().sum::<u64>(),
+            agg.truncated.keys().collect::<Vec<_>>()
+        );
+    }
     if !agg.harness_errors.is_empty() {
         for h in &agg.harness_errors {
             eprintln!("harness error: {}", h);
